@@ -1,5 +1,7 @@
 import BeyondVerif.Lemmas.Date
 import BeyondVerif.Lemmas.DateRange
+import BeyondVerif.Lemmas.EopLookup
+import BeyondVerif.Model.EopFile
 import BeyondVerif.Generated.TdbR
 
 /-!
@@ -19,6 +21,10 @@ Clauses of the property and where they are:
   dates carry the same EOP record), `mk_record_of_utc_day`, `records_agree` (when they do),
   `changeScale_instant_bound_partial` (what is still missing; see there)
 * missing data policy — `eop_policy_spec`, `eop_lookup_day`
+* "as tabulated by IERS for that day" (the lookups at and between the tables' own abscissae, for every sorted table and every
+  argument) — `tai_utc_lookup_spec`, `tai_utc_at_entry`, `tai_utc_between`, `tai_utc_after_last`, `tai_utc_before_first`,
+  `last_next_spec`, `tai_utc_of_day`, `eop_record_of_day`, `eop_record_spec`, and on the regenerated `tai-utc.dat`: `leap_table_lookup`,
+  `leap_table_is_parsed_file`
 * arithmetic — `add_clock` (the clock reading moves by exactly t, every scale), `add_sub`, `add_sub_const_scales`,
   `add_assoc_clock`, `add_assoc_instant`
 * ordering / equality / hash — `cmp_consistent`, `eq_iff_sub_zero`, `cmp_exact_us`, `label_irrelevant`
@@ -507,6 +513,114 @@ theorem eop_lookup_day (env : Env) (num : Int) (e : Eop) (h0 : 0 ≤ num) (h : e
         simpa using this
       · have := List.find?_some hf
         simpa using this
+
+/-! ### the lookups at the tables' own abscissae
+
+`SimpleEopDatabase.tai_utc` is a step function of `mjd` whose steps sit exactly on the dates of `tai-utc.dat`; the step
+belongs to the *new* value (`date <= mjd`).  The theorems below pin that for every table with ascending dates and every
+argument; `leap_table_lookup` instantiates them on the regenerated file.  (A binary search with `bisect_left - 1`, or a
+scan with `date < mjd`, falsifies `tai_utc_at_entry`; the correspondence ops `d3tai` / `d3fin` / `d3eop` tie the real
+methods to `taiUtcAt` / `eopRaw` at every entry date exactly and one microsecond before and after.) -/
+
+/-- **TAI−UTC as tabulated**: on a table with ascending dates the lookup returns `v` iff `v` is the value of the entry
+with the greatest date `≤ mjd`; it raises (`none`) iff every entry is later than `mjd` -/
+theorem tai_utc_lookup_spec {leap : List (Int × Int)} (hs : Sorted leap) (num : Int) :
+    (∀ v, taiUtcAt leap num = some v ↔
+      ∃ e ∈ leap, e.2 = v ∧ e.1 * D ≤ num ∧ ∀ e' ∈ leap, e'.1 * D ≤ num → e'.1 ≤ e.1) ∧
+    (taiUtcAt leap num = none ↔ ∀ e ∈ leap, num < e.1 * D) :=
+  ⟨fun v => taiUtcAt_eq_some_iff hs num v, taiUtcAt_eq_none_iff leap num⟩
+
+/-- **exactly at 00:00:00 of the day an entry takes effect, that entry applies** -/
+theorem tai_utc_at_entry {leap : List (Int × Int)} (hs : Sorted leap) {e : Int × Int} (he : e ∈ leap) :
+    taiUtcAt leap (e.1 * D) = some e.2 := taiUtcAt_at_entry hs he
+
+/-- **from an entry's date (included) to the last tick before the next entry's date, the earlier entry applies** -/
+theorem tai_utc_between {l r : List (Int × Int)} {e1 e2 : Int × Int} (hs : Sorted (l ++ e1 :: e2 :: r)) {num : Int}
+    (h1 : e1.1 * D ≤ num) (h2 : num < e2.1 * D) : taiUtcAt (l ++ e1 :: e2 :: r) num = some e1.2 :=
+  taiUtcAt_between hs h1 h2
+
+/-- **from the last entry's date on, the last entry applies** -/
+theorem tai_utc_after_last {l : List (Int × Int)} {e : Int × Int} {num : Int} (h : e.1 * D ≤ num) :
+    taiUtcAt (l ++ [e]) num = some e.2 := taiUtcAt_after_last h
+
+/-- **before the first entry: no value** (the code raises `KeyError`; `EopDb.get` then applies the policy) -/
+theorem tai_utc_before_first {e : Int × Int} {l : List (Int × Int)} (hs : Sorted (e :: l)) {num : Int}
+    (h : num < e.1 * D) : taiUtcAt (e :: l) num = none := taiUtcAt_before_first hs h
+
+/-- **`TaiUtc.get_last_next`** (the other lookup of the leap-second reader): `past` is the entry the TAI−UTC lookup uses;
+with the table split at the last entry whose date is `≤ mjd`, `future` is the entry that follows it (none after the
+last); before the first entry there is no `past` and `future` is the first entry -/
+theorem last_next_spec (leap : List (Int × Int)) (num : Int) :
+    ((lastNext leap num).1.map (·.2) = taiUtcAt leap num) ∧
+    (∀ l e r, leap = l ++ e :: r → e.1 * D ≤ num → (∀ b ∈ r, num < b.1 * D) → lastNext leap num = (some e, r.head?)) ∧
+    ((∀ b ∈ leap, num < b.1 * D) → lastNext leap num = (none, leap.head?)) :=
+  ⟨lastNext_past leap num, fun _ _ _ hl he hr => hl ▸ lastNext_split he hr, fun h => lastNext_before h⟩
+
+example : lastNext [(10, 5), (20, 6), (30, 7)] (20 * D) = (some (20, 6), some (30, 7)) ∧
+    lastNext [(10, 5), (20, 6), (30, 7)] (20 * D - 1) = (some (10, 5), some (20, 6)) ∧
+    lastNext [(10, 5), (20, 6), (30, 7)] (30 * D) = (some (30, 7), none) ∧
+    lastNext [(10, 5), (20, 6), (30, 7)] (10 * D - 1) = (none, some (10, 5)) := by decide
+
+/-- **TAI−UTC "for that day"**: the value is a function of the day number `⌊mjd⌋` alone -/
+theorem tai_utc_of_day (leap : List (Int × Int)) (num : Int) : taiUtcAt leap num = taiUtcAt leap (num / D * D) :=
+  taiUtcAt_day leap num
+
+/-- **the record "for that day"**: every instant `day·D ≤ num < (day+1)·D` of a day gets the record found at that day's
+00:00:00 — nothing changes inside a day, everything changes exactly at the day boundary -/
+theorem eop_record_of_day (env : Env) {num day : Int} (h0 : 0 ≤ day) (h1 : day * D ≤ num) (h2 : num < (day + 1) * D) :
+    eopRaw env num = eopRaw env (day * D) := by
+  have hD : (0 : Int) < D := by decide
+  have hn : 0 ≤ num := Int.le_trans (Int.mul_nonneg h0 (Int.le_of_lt hD)) h1
+  rw [eopRaw_day env num hn, day_of_mem h1 h2]
+
+/-- **the record is exactly the tabulated one**: for a table with ascending dates, `SimpleEopDatabase.__getitem__(mjd)`
+returns `e` iff UT1−UTC is the finals entry of day `⌊mjd⌋` and TAI−UTC the value of the entry of `tai-utc.dat` with the
+greatest date `≤ ⌊mjd⌋` (strengthens `eop_lookup_day`, which only says "some entry not after `mjd`") -/
+theorem eop_record_spec (env : Env) (hs : Sorted env.leap) (num : Int) (e : Eop) (h0 : 0 ≤ num) :
+    eopRaw env num = some e ↔
+      env.finals (num / D) = some e.ut1Utc ∧
+      ∃ ent ∈ env.leap, ent.2 = e.taiUtc ∧ ent.1 ≤ num / D ∧ ∀ e' ∈ env.leap, e'.1 ≤ num / D → e'.1 ≤ ent.1 := by
+  have hD : (0 : Int) < D := by decide
+  have hiff : ∀ x : Int, x * D ≤ num ↔ x ≤ num / D := fun x => (Int.le_ediv_iff_mul_le hD).symm
+  have hspec := taiUtcAt_eq_some_iff hs num e.taiUtc
+  simp only [hiff] at hspec
+  unfold eopRaw
+  rw [Int.tdiv_eq_ediv_of_nonneg h0]
+  constructor
+  · intro h
+    split at h
+    · cases h
+    · next u hu =>
+      split at h
+      · cases h
+      · next t ht =>
+        cases h
+        exact ⟨hu, hspec.mp ht⟩
+  · rintro ⟨hu, hent⟩
+    rw [hu, hspec.mpr hent]
+
+/-- the regenerated `tai-utc.dat`: dates ascending; **at the date of every entry the entry's own value is returned, one
+tick earlier the value of the entry before it** (nothing before the first), and the day before the first entry has none -/
+theorem leap_table_lookup :
+    Sorted leapTable ∧ (∀ e ∈ leapTable, taiUtcAt leapTable (e.1 * D) = some e.2) ∧
+    ((leapTable.zip leapTable.tail).all (fun p => taiUtcAt leapTable (p.2.1 * D - 1) == some p.1.2) = true) ∧
+    (∀ e ∈ leapTable.head?, taiUtcAt leapTable (e.1 * D - 1) = none) := by
+  have hs : Sorted leapTable := leap_table_facts.1
+  refine ⟨hs, fun e he => taiUtcAt_at_entry hs he, by decide, by decide⟩
+
+/-- **the table the theorems are instantiated with is the parse of the file text**: `leapTable` is what the model of the
+`TaiUtc` reader (`Model/EopFile.lean`: `line.split()`, `int(float(f[4]) - 2400000.5)`, `float(f[6])`, tied to the real
+reader line by line by the correspondence op `d3ptai`) makes of the regenerated text of `tests/data/pole/tai-utc.dat` -/
+theorem leap_table_is_parsed_file : EopFile.taiTable taiUtcText = some leapTable := by decide +kernel
+
+/-- the hypotheses are satisfiable and the boundary goes to the new value: a two-entry table -/
+example : Sorted [(10, 5), (20, 6)] ∧ taiUtcAt [(10, 5), (20, 6)] (20 * D) = some 6 ∧
+    taiUtcAt [(10, 5), (20, 6)] (20 * D - 1) = some 5 ∧ taiUtcAt [(10, 5), (20, 6)] (20 * D + 1) = some 6 ∧
+    taiUtcAt [(10, 5), (20, 6)] (10 * D - 1) = none :=
+  ⟨by unfold Sorted; decide, by decide, by decide, by decide, by decide⟩
+/-- … and the last entry of the regenerated file applies at its own date, the one before it one tick earlier -/
+example : ∀ e ∈ leapTable.getLast?, taiUtcAt leapTable (e.1 * D) = some e.2 ∧
+    taiUtcAt leapTable (e.1 * D - 1) = (leapTable.dropLast.getLast?.map (·.2)) := by decide
 
 /-! ## date arithmetic -/
 
